@@ -144,6 +144,9 @@ class Prog(object):
         if op == "cw":
             self.features.add("leaf:cw")
             return ("c", lid, self._task(lf[1]), "cw")
+        if op == "cu":
+            self.features.add("leaf:cu")
+            return ("c", lid, self._task(lf[1]), "cu")
         if op == "i":
             self.kinds.add(lf[1])
             if lf[2] != "ok":
